@@ -214,8 +214,7 @@ R.spec_funcs["same_d"] = lambda it, a, b: (a is None and b is None) if (a is Non
 
 # create_test (settings merge, seed, phases) is verified in C13's module; its clauses about the user's limits / about a test being built at all belong to this property too
 # (finding F05b): the same job runs as part of this check.
-SHARED_JOBS = [("C13", "schemathesis.generation.hypothesis.builder:create_test")]
-
+SHARED_JOBS = [("C13", "schemathesis.generation.hypothesis.builder:create_test"), ("C13", "schemathesis.cli.commands.run:run#wiring")]  # + `st run` wiring: the C12_ clauses of that contract belong to this property
 
 # ------------------------------------------------------------------------------------------------- EngineContext.has_to_stop / is_interrupted / has_reached_the_failure_limit: what the workers poll IS the control's state
 for _prop_name, _means in (("has_to_stop", "self.control.stop_event.flag or self.control.has_reached_the_failure_limit"), ("is_interrupted", "self.control.stop_event.flag"),
@@ -235,4 +234,53 @@ R.contract(
     args={"self": E.Engine()},
     raises=[],
     ensures={"a_stop_request_sets_the_stop_event": "self.control.stop_event.flag is True"},
+)
+
+
+# ------------------------------------------------------------------------------------------------- StatefulContext: the unique-inputs outcome cache is a map from the input (its hash) to its outcome
+# "with unique-inputs enabled the same request is never sent twice": _InstrumentedStateMachine.step (verified above) asks get_step_outcome and does not send when the answer is
+# not NOT_SET. That argument needs the cache to answer NOT_SET only for inputs that were NOT stored - a stored outcome None ("sent, passed") included.
+_SCtxObj = lambda: Obj(SCTX.rstrip("."), step_outcomes=KeyedDict(Int, OneOf(NoneT, Opq("StepException")), sizes=(0, 1, 2)), completed_scenarios=IntRange(0, None),
+                       current_step_status=OneOf(NoneT, Opq("StatusRef")), current_response=OneOf(NoneT, Opq("ResponseRef")))
+R.contract(
+    SCTX + "get_step_outcome",
+    variant="cache",
+    prop="C12",
+    args={"self": _SCtxObj(), "case": Opq("CaseRef")},
+    raises=[],
+    ensures={
+        "a_stored_outcome_is_returned_as_stored_none_included": "implies(hash(case) in self.step_outcomes, result is self.step_outcomes[hash(case)] and result is not NOT_SET())",
+        "not_set_only_for_an_input_that_was_not_stored": "implies(hash(case) not in self.step_outcomes, result is NOT_SET())",
+        "lookup_changes_nothing": "self.step_outcomes == old(dict(self.step_outcomes))",
+    },
+    bounded_note="caches with up to 2 entries",
+    replayable=False,
+)
+R.contract(
+    SCTX + "store_step_outcome",
+    variant="cache",
+    prop="C12",
+    args={"self": _SCtxObj(), "case": Opq("CaseRef"), "outcome": OneOf(NoneT, Opq("StepException"))},
+    raises=[],
+    ensures={
+        "the_outcome_is_stored_under_the_input": "hash(case) in self.step_outcomes and self.step_outcomes[hash(case)] is outcome",
+        "other_inputs_keep_their_outcome": "all(implies(k != hash(case), k in self.step_outcomes and self.step_outcomes[k] is old(dict(self.step_outcomes))[k]) for k in old(dict(self.step_outcomes))) and "
+                                           "all(k == hash(case) or k in old(dict(self.step_outcomes)) for k in self.step_outcomes)",
+    },
+    bounded_note="caches with up to 2 entries",
+    replayable=False,
+)
+R.contract(
+    SCTX + "reset_scenario",
+    variant="cache",
+    prop="C12",
+    args={"self": _SCtxObj()},
+    raises=[],
+    ensures={
+        # uniqueness is per scenario: a new scenario starts with an empty cache (and only then)
+        "a_new_scenario_starts_with_an_empty_cache": "length(self.step_outcomes) == 0 and self.current_step_status is None and self.current_response is None",
+        "one_more_completed_scenario": "self.completed_scenarios == old(self.completed_scenarios) + 1",
+    },
+    bounded_note="caches with up to 2 entries",
+    replayable=False,
 )
